@@ -10,6 +10,9 @@ import (
 	"sort"
 	"strings"
 	"sync"
+	"time"
+
+	abci "github.com/cometbft/cometbft/abci/types"
 
 	"github.com/circlefin/noble-cctp/x/cctp/keeper"
 	ct "github.com/circlefin/noble-cctp/x/cctp/types"
@@ -73,6 +76,124 @@ func runTranscriptR(seed int64, hid, nTx int, yield func(), restartEvery int) (d
 	return digests, rc.Viol, rc.Cov.Inconcl
 }
 
+// resultDigest: everything a submitter or an indexer sees of one transaction, without block-level values.
+func resultDigest(r *chain.TxResult) string {
+	h := sha256.New()
+	fmt.Fprintf(h, "%d|%s|", r.Code, r.Codespace)
+	h.Write(r.Data)
+	if !r.IsPanic() {
+		h.Write([]byte(r.Log))
+	}
+	for _, ev := range r.Events {
+		h.Write([]byte(ev.Type))
+		for _, a := range ev.Attributes {
+			h.Write([]byte(a.Key))
+			h.Write([]byte{0})
+			h.Write([]byte(a.Value))
+			h.Write([]byte{1})
+		}
+	}
+	return hex.EncodeToString(h.Sum(nil))[:12]
+}
+
+// c18BlockPartition: the transactions of history hid are delivered once one block each (through the engine, which
+// records the bytes) and then again, to a fresh instance with the same genesis, packed into blocks of k
+// transactions. Results and events of every transaction and the final raw state must not depend on the partition:
+// nothing but committed state - no per-block or per-process memory - may flow from one transaction to the next.
+func c18BlockPartition(rc *RunCtx, seed int64, hid, nTx int, ks []int) {
+	sub := &RunCtx{ID: "C18", Tier: "quick", Seed: seed, Cov: NewCov()}
+	sub.Rand = newRand(seed*7919 + int64(hid)*104729 + 5)
+	gs := GenGenesis(sub.Rand, GenOpts{Unpaused: hid%2 == 0, WellFormed: true})
+	f, allow := DefaultFunding(sub.Rand, hid%3 == 1)
+	cfg := chain.Config{Genesis: gs, Funded: f, Allowance: allow, Double: hid%3 == 1}
+	e, err := NewEngine(sub, cfg)
+	if err != nil {
+		rc.Cov.Inconclusive("block-partition engine: " + err.Error())
+		return
+	}
+	e.LightQueries = true
+	e.RecordBlocks = true
+	g := NewGen(e)
+	pg := &ProdGen{E: e, G: g}
+	for i := 0; i < nTx; i++ {
+		var tx Tx
+		if i%3 == 0 { // plenty of successful producers and receives, so that consecutive transactions interact
+			var m interface{} = nil
+			switch sub.Rand.Intn(4) {
+			case 0:
+				tx = Tx{Msgs: msgs1(pg.ValidDeposit(sub.Rand.Intn(2) == 0, 0))}
+			case 1:
+				tx = Tx{Msgs: msgs1(pg.ValidSend(sub.Rand.Intn(2) == 0))}
+			case 2:
+				tx = Tx{Msgs: msgs1(g.Inbound(false))}
+			default:
+				tx = g.Next()
+			}
+			_ = m
+		} else {
+			tx = g.Next()
+		}
+		g.Learn(tx, e.Exec(tx))
+	}
+	for _, v := range sub.Viol {
+		rc.Report(v)
+	}
+	var txs [][]byte
+	for _, b := range e.BlockLog {
+		txs = append(txs, b...)
+	}
+	refFinal := chain.HashDump(e.C.DumpAll())
+	for ki, k := range ks {
+		cfg2 := cfg
+		if ki%2 == 1 { // another initial height, block times, proposers and block hashes as well
+			cfg2.InitialHeight = 7_000_001
+			cfg2.Header = func(req *abci.RequestFinalizeBlock) {
+				req.Time = time.Date(2031, 5, 17, 23, 59, 59, 0, time.UTC).Add(time.Duration(req.Height) * 6 * time.Second)
+				req.ProposerAddress = bytes.Repeat([]byte{byte(req.Height)}, 20)
+				req.Hash = bytes.Repeat([]byte{byte(req.Height >> 3)}, 32)
+			}
+		}
+		c, err := chain.New(cfg2)
+		if err != nil {
+			rc.Cov.Inconclusive("block-partition replay chain: " + err.Error())
+			continue
+		}
+		var got []chain.TxResult
+		for i := 0; i < len(txs); i += k {
+			j := i + k
+			if j > len(txs) {
+				j = len(txs)
+			}
+			res, err := c.DeliverBlock(txs[i:j])
+			if err != nil {
+				rc.Cov.Inconclusive("block-partition replay: " + err.Error())
+				break
+			}
+			got = append(got, res...)
+		}
+		rc.Cov.Cell("C18_modes", fmt.Sprintf("block-partition-%d", k))
+		rc.Cov.Assert("C18.block-partition-invariance")
+		rc.Cov.Evaluations += len(got)
+		rc.Cov.Distinct(fmt.Sprintf("c18|%d|partition%d|%d", hid, k, rc.Shard))
+		if len(got) != len(e.ResLog) {
+			continue
+		}
+		for i := range got {
+			if a, b := resultDigest(&e.ResLog[i]), resultDigest(&got[i]); a != b {
+				rc.Report(Violation{Props: []string{"C18"}, Monitor: "block-partition", Sig: "C18:block-partition-diverged",
+					Detail: fmt.Sprintf("history %d: transaction #%d gives a different result when the same transactions are packed %d to a block: one-per-block code=%d log=%q, packed code=%d log=%q",
+						hid, i, k, e.ResLog[i].Code, trunc(e.ResLog[i].Log, 200), got[i].Code, trunc(got[i].Log, 200)),
+					Case: map[string]interface{}{"history": hid, "tx_index": i, "block_size": k, "tx_hex": hex.EncodeToString(txs[i])}})
+				break
+			}
+		}
+		if fh := chain.HashDump(c.DumpAll()); fh != refFinal {
+			rc.Report(Violation{Props: []string{"C18"}, Monitor: "block-partition", Sig: "C18:block-partition-final-state",
+				Detail: fmt.Sprintf("history %d: final raw state differs when the same transactions are packed %d to a block", hid, k)})
+		}
+	}
+}
+
 func c18Params(tier string) (H, nTx int) {
 	if tier == "thorough" {
 		return 16, 1200
@@ -114,6 +235,8 @@ func runC18(rc *RunCtx) {
 		d, v, inc := runTranscriptR(rc.Seed, hb, nTx, nil, every)
 		rec(hb, fmt.Sprintf("restart-every-%d", every), d, v, inc)
 	}
+	// (b+) the same transactions packed 2, 7 and all-in-one to a block
+	c18BlockPartition(rc, rc.Seed, (hid+1)%H, nTx, []int{2, 7, 1 << 30, 1})
 	// (b'') the exported verifier and decoders called repeatedly and concurrently with the same arguments
 	c18RepeatCalls(rc)
 	// (c) concurrently with other instances on other goroutines
